@@ -1,5 +1,6 @@
 """C01, C02, C03: one layer at a time (removeOverlap + vpsc) and whole engine runs, float and exact mode."""
 import json
+import common
 from common import Report, build_and_audit, drive, fields, rng_for, load_known, leanchecker
 import gen_layout as G
 
@@ -99,7 +100,7 @@ def run(pid, tier, seed, replay=None):
         print("replay:", ans)
         print("VIOLATION property=%s replay=%s" % (pid, replay) if not (corr and prop) or kn else "replay: property holds on this input now")
         return 1 if not (corr and prop) else 0
-    nl, nf = (1200, 300) if tier == "quick" else (6000, 1500)
+    nl, nf = (1200, 300) if tier == "quick" else tuple(common.count(tier, 0, x) for x in (6000, 1500))
 
     def explore(nl, nf, seed, only_prop=False):
         cs = cases(tier, seed, nl, nf, rep)
